@@ -37,7 +37,11 @@ CLAIMED = {
              'tree, indent, ensure_ascii mode and line break - back as exactly the JSON value of the '
              'tree (C07_emitted_text_is_json, induction over the parser, no size bound), every string '
              'token denotes its string code point by code point (C07_string_token_denotes), and two '
-             'formatting options give texts denoting the same value; the reference parser is compared '
+             'formatting options give texts denoting the same value; end to end '
+             '(C07_dumps_json_is_projection): for every value of the domain whose classes have no sweeten '
+             'hook, the emitter fed the represented tree writes a text that parses to the JSON projection '
+             'jsonOf(value) stated on its own (also checked on the real dumps_json for generated class '
+             'models); the reference parser is compared '
              'with json.loads on every text produced, on mutations and on edge cases. Tie: exhaustive step-level comparison of the '
              'real emit_json with the model over (state x event x indent), tree-level comparison on '
              'all small shapes x indent x ensure_ascii, json.dumps vs the model encoder.',
